@@ -1339,6 +1339,8 @@ def _horner(coeffs, v):
 def np_fft2(ctx, a, s=None, axes=None, norm=None):
     """Abstract: a fresh array of the same shape; the normalisation keyword is recorded as a ghost."""
     a = arr(ctx, a)
+    if any(ctx.branch(S.z(S.eq(d, 0))) for d in a.shape[-2:]):
+        raise Raised('ValueError', 'Invalid number of FFT data points (0) specified.')
     ctx.__dict__.setdefault('ghost_fft_calls', []).append({'fn': 'fft2', 'norm': norm, 'input': a.snapshot()})
     out = A.fresh_array(ctx, 'fft2', a.shape, 'complex')
     ctx.ghost_last_fft2 = out
